@@ -380,8 +380,24 @@ static void on_fault (int sig, siginfo_t *si, void *ucv) {
 #endif
   if (r != NULL) {
     const char *acc = (err & 0x10) ? "x" : (err & 0x2) ? "w" : "r";
-    ev ("{\"e\":\"%s\",\"r\":%ld,\"off\":%ld,\"acc\":\"%s\",\"mapped\":%d,\"pc\":%ld}", (err & 0x2) ? "WriteFault" : "AccessFault",
-        r->id, (long) ((uint8_t *) si->si_addr - r->base), acc, r->st == 1, pc);
+    /* who did it: the frames of the interrupted code that lie in the executable (the faulting instruction is
+       often inside libc's memcpy or in generated code) */
+    void *a[16];
+    char bt[200];
+    int n = backtrace (a, 16), i, k = 0, len = 0, seen_pc = 0;
+    bt[len++] = '[';
+    for (i = 0; i < n && k < BT_DEPTH; i++) {
+      long off = PCOFF (a[i]);
+#if defined(__x86_64__)
+      if ((uintptr_t) a[i] == (uintptr_t) uc->uc_mcontext.gregs[REG_RIP]) seen_pc = 1;
+#endif
+      if (!seen_pc || off <= 0 || off > 0x7fffffffL) continue;
+      len += snprintf (bt + len, sizeof (bt) - len, k++ ? ",%ld" : "%ld", off + 1);
+    }
+    bt[len++] = ']';
+    bt[len] = 0;
+    ev ("{\"e\":\"%s\",\"r\":%ld,\"off\":%ld,\"acc\":\"%s\",\"mapped\":%d,\"pc\":%ld,\"bt\":%s}",
+        (err & 0x2) ? "WriteFault" : "AccessFault", r->id, (long) ((uint8_t *) si->si_addr - r->base), acc, r->st == 1, pc, bt);
     log_flush ();
     _exit (41);
   }
